@@ -44,6 +44,19 @@ Theorem C04_rule_semantics :
 Proof. exact rule_semantics. Qed.
 Print Assumptions C04_rule_semantics.
 
+(* ... and at machine level: the two bytes the compressed encoder produced, loaded at the pc, make the fetching machine
+   (Spec/Sem.v run_n: fetch by the low two bits, decode16 + expand_c) do exactly what the 32-bit instruction does *)
+Theorem C04_rule_machine :
+  forall v r, rule_check v r = true ->
+  exists fs final cls cfs h,
+    orig_fields (nv_name v) = Some fs /\ assoc_str r construction = Some (final, cls, cfs) /\
+    encode final (pos16_of v cfs) [] = Ok h /\
+    forall w, In (nv_name v) base_mnemonics -> encode (nv_name v) (pos32_of v fs) [] = Ok w ->
+      exists ins, decode32 w = Some ins /\
+        forall s, loaded s (half_bytes h) -> ostate_eq (run_n 1 s) (step ins 2 s).
+Proof. exact rule_machine. Qed.
+Print Assumptions C04_rule_machine.
+
 (* a register operand reaches the encoders only through its number: the numeric views speak for every spelling *)
 Theorem C04_spelling : forall a n, regnum a = Some n ->
   read_op KReg a = read_op KReg (AInt n) /\ read_cop CReg a = read_cop CReg (AInt n).
